@@ -4,7 +4,7 @@ import math
 from hypothesis import strategies as st
 
 from .. import repo, strategies as S, tmcases as T
-from ..core import SubCheck, Fail, Discard, metric, target
+from ..core import SubCheck, Fail, Discard, metric, target, is_seq
 from ..oracles import tm_exact
 
 RULE = ("(a) geographic positions of C01 -> grid -> geographic; (b) grid coordinates drawn directly on every zone / "
@@ -42,7 +42,7 @@ def check_geo_roundtrip(case):
     hemi, zone, east, north, psf, conv = T.call_geo2grid(cv, case, lat, lon)
     T.grid_range_or_discard(east, north)     # e.g. ISG (false northing 5 000 km) south of 45 S: no valid grid coordinate
     back = T.call_grid2geo(cv, case, zone, east, north, hemi)
-    if not (isinstance(back, tuple) and len(back) == 4):
+    if not is_seq(back, 4):
         raise Fail("grid2geo did not return a 4-tuple", observed=repr(back))
     d = _arc(lat, lon, back[0], back[1])
     metric("geo_roundtrip_deg", d)
@@ -57,7 +57,7 @@ def check_grid_roundtrip(case):
     cv = repo.mod("geodepy.convert")
     T.grid_range_or_discard(case["east"], case["north"])
     got = T.call_grid2geo(cv, case, case["zone"], case["east"], case["north"], case["hemi"])
-    if not (isinstance(got, tuple) and len(got) == 4):
+    if not is_seq(got, 4):
         raise Fail("grid2geo did not return a 4-tuple", observed=repr(got))
     lat, lon = got[0], got[1]
     T.grid_domain_or_discard(case, lat, lon)
@@ -122,7 +122,7 @@ def check_standalone(case):
     lib = cv.grid2geo(case["zone"], case["east"], case["north"], "south")
     T.grid_domain_or_discard(case, lib[0], lib[1])
     got = sa.grid2geo(case["zone"], case["east"], case["north"])
-    if not (isinstance(got, tuple) and len(got) == 2):
+    if not is_seq(got, 2):
         raise Fail("Standalone grid2geo did not return (lat, lon)", observed=repr(got))
     d = max(abs(got[0] - lib[0]), abs(got[1] - lib[1]))
     metric("standalone_diff_deg", d)
@@ -191,9 +191,9 @@ def check_band_rejected(case):
         raise Discard()      # the notation round trip brought the latitude back onto the band limit
     try:
         r = T.call_geo2grid(cv, case, lat_o, lon_o)
-    except ValueError:
+    except Exception:          # noqa: "rejects" - no exception type is stated
         return
-    raise Fail("forward conversion accepted a latitude outside [-80, 84]", expected="ValueError", observed=r)
+    raise Fail("forward conversion accepted a latitude outside [-80, 84]", expected="an error", observed=r)
 
 
 def _nt_geo(case):
